@@ -60,7 +60,7 @@ Proof.
 Qed.
 
 Lemma invO_set_stack : forall L s k, InvO L s -> InvO L (set_stack s k).
-Proof. intros L s k [A B C D E]. constructor; auto. Qed.
+Proof. intros L s k [A B C D E F]. constructor; auto. Qed.
 
 Lemma op_ids_bind : forall s o, nonbind o = false -> op_ids s o = [].
 Proof. intros s o H. destruct o; try discriminate H; reflexivity. Qed.
@@ -156,14 +156,23 @@ Proof.
   apply IH; [exact I1 | exact Ht].
 Qed.
 
-Lemma inv_st0 : Inv [] st0.
+(* the ledger after login: the default groups of all logins *)
+Definition ledger0 (dg : Z) (dgs : list Z) : ledger := (KNode, dg) :: map (fun g => (KNode, g)) dgs.
+
+Lemma inv_init : forall dg dgs, Inv (ledger0 dg dgs) (st_init dg dgs).
 Proof.
-  split; [|constructor]. constructor; try reflexivity.
+  intros dg dgs. split; [|constructor]. constructor; try reflexivity.
   - intros n x z G. destruct n; discriminate G.
   - intros b x a G. destruct b; discriminate G.
   - intros u x a G. destruct u; discriminate G.
   - intros blk i [].
+  - split.
+    + right. right. left. reflexivity.
+    + intros g Hg. right. right. right. apply in_map_iff. exists g. auto.
 Qed.
+
+Lemma inv_st0 : Inv (ledger0 1 [1]) st0.
+Proof. exact (inv_init 1 [1]). Qed.
 
 (* -- conformance of everything a run emits -- *)
 Lemma evgood_conform : forall L ev, EvGood L ev -> forallb conforms (wev_msgs ev) = true.
